@@ -80,7 +80,8 @@ def check_merge(case):
             else:
                 cont = case.get('cont', 'list')
                 arg = {'list': tracks, 'tuple': tuple(tracks), 'gen': (t for t in tracks),
-                       'plain': [list(t) for t in tracks]}[cont]
+                       'plain': [list(t) for t in tracks], 'iters': [iter(t) for t in tracks],
+                       'gens': [(m for m in t) for t in tracks]}[cont]
                 res = mido.merge_tracks(arg, skip_checks=skip)
         except Exception as exc:  # noqa: BLE001
             return [fail('raises', f'skip_checks={skip}: {exc!r}', exc=exc_sig(exc))]
@@ -108,6 +109,21 @@ def check_merge(case):
             break
     if len(results) == 2 and list(results[False]) != list(results[True]):
         out.append(fail('skip-checks-disagree', 'results differ between skip_checks settings'))
+    # the returned track belongs to the caller: editing it must not influence any later merge
+    if not out and case.get('poke') and results.get(False) is not None and len(results[False]):
+        res = results[False]
+        res[-1].time = res[-1].time + 480
+        res[0].time = res[0].time + 7
+        try:
+            again = mido.merge_tracks(tracks)
+            if len(again) != len(want) or any(_same_loose(m, d) for m, d in zip(again, want)):
+                out.append(fail('result-shared', 'a merge done after the caller edited an earlier result differs: '
+                                                 f'{list(again)[-2:]!r}'))
+            empty = mido.merge_tracks([])
+            if len(empty) != 1 or empty[0].time != 0:
+                out.append(fail('result-shared', f'merge_tracks([]) after poking an earlier result: {list(empty)!r}'))
+        except Exception as exc:  # noqa: BLE001
+            out.append(fail('raises', f'merge after poking a result: {exc!r}', exc=exc_sig(exc)))
     # merging again after an edit of the inputs reflects the edit (nothing is remembered between calls)
     edit = case.get('edit')
     if not out and edit and tracks_d and tracks_d[edit[0] % len(tracks_d)]:
@@ -184,7 +200,8 @@ def cases(draw):
             tr.append(tagged('eot', 0, draw(tm)))
         tracks.append(tr)
     return {'tracks': tracks, 'entry': draw(st.sampled_from(['merge_tracks', 'merge_tracks', 'merged_track'])),
-            'cont': draw(st.sampled_from(['list', 'list', 'tuple', 'gen', 'plain'])),
+            'cont': draw(st.sampled_from(['list', 'list', 'tuple', 'gen', 'plain', 'iters', 'gens'])),
+            'poke': draw(st.booleans()),
             'edit': draw(st.one_of(st.none(), st.tuples(st.integers(0, 4), st.integers(0, 9), st.sampled_from([1, 5, 480])).map(list)))}
 
 
